@@ -993,6 +993,11 @@ pub fn run(opts: &Opts, rep: &Report) {
     let budget = Budget::new(opts.budget_s);
     // histories get a quarter of the budget at the start (they are the cheaper, property-specific part)
     let hist_budget = Budget::new(opts.budget_s * if tier.is_thorough() { 0.35 } else { 0.3 });
+    // the result caches themselves: explicit-state search over their operation histories (c13_maps)
+    {
+        let cb = Budget::new(if tier.is_thorough() { opts.budget_s * 0.2 } else { 6.0 });
+        crate::c13_maps::run(rep, tier.is_thorough(), &cb);
+    }
     let done = AtomicBool::new(false);
     std::thread::scope(|sc| {
         sc.spawn(|| watchdog(rep, &done));
@@ -1023,6 +1028,10 @@ pub fn run(opts: &Opts, rep: &Report) {
 
 pub fn replay(case: &Value, rep: &Report) {
     let kind = case["kind"].as_str().unwrap_or("term").to_string();
+    if kind.starts_with("containers") {
+        crate::c13_maps::replay(case, rep);
+        return;
+    }
     if kind == "prebuilt" {
         let u: Vec<u32> = case["universe"].as_array().map(|a| a.iter().filter_map(|x| x.as_u64()).map(|x| x as u32).collect()).unwrap_or_default();
         run_prebuilt_universes(rep, &[u], case["term"].as_str());
